@@ -43,8 +43,6 @@ def crashTag (op : OpKind) (ka kb kc : ForestKind) (sd : Bool) : Option String :
       if ka != kc then some "F2-reach-foreign-result"
       else if op.isSatur && kb.range != .bool then some "F4-satur-nonbool-relation"
       else none
-    else if op == .VM_MULTIPLY && ka.lab != .mt then some "F3-vecmat-nonmt-vector"
-    else if op == .MV_MULTIPLY && kb.lab != .mt then some "F3-vecmat-nonmt-vector"
     else if op == .INTERSECTION && ka.range != kb.range then some "F5-intersection-mixed-range"
     else if (op == .PRE_IMAGE || op == .POST_IMAGE) && kc.lab == .mt && kc.range == .int && ka != kc then
       some "F6-image-distance-foreign-operand"
